@@ -361,3 +361,51 @@ func H_C08_midskip() {
 	vxrt.Assert(strings.Contains(out, "TestOld_1.snap\n") && vxReadFile(dir+"/TestOld_1.snap") == "<missing>", "C09:stale-standalone-reported-and-removed-despite-a-skip")
 	vxrt.Assert(strings.Contains(out, "legacy.snap\n") && vxReadFile(dir+"/legacy.snap") == "<missing>", "C09:stale-custom-named-file-reported-and-removed-despite-a-skip")
 }
+
+// H_C08_siblings: several skipped sub-tests whose names extend one another with bytes that sort
+// before '/' ("j", "j-i", "j#01"): the entries of a skipped test's descendants stay protected
+// whatever else is in the skip list, and entries of the tests that ran are addressed; so Clean in
+// clean mode leaves the file alone and lists nothing.
+func H_C08_siblings() {
+	vxrt.CI(false)
+	vxrt.EnvFixed("UPDATE_SNAPS", "clean")
+	vxrt.EnvFixed("NO_COLOR", "1")
+	vxrt.Flag("test.count", "1")
+	vxrt.Flag("test.run", "")
+	dir := vxrt.Dir() + "/__snapshots__"
+	path := dir + "/f_test.snap"
+	tests := []string{"TestE/j", "TestE/j/n", "TestE/j/n/deep", "TestE/j-i", "TestE/j#01", "TestE/k"}
+	content := ""
+	for _, tn := range tests {
+		content += vxFrame(tn+" - 1", "v-"+tn)
+	}
+	vxWriteFile(path, content)
+	vxrt.TestSources(vxrt.Dir()+"/f_test.go", "TestE")
+	c := WithConfig(Dir(dir), Filename("f_test"), Update(false))
+	skipJ := vxrt.Bool("skip-TestE/j")
+	skipN := vxrt.Bool("skip-TestE/j/n")
+	skip := map[string]bool{"TestE/j": skipJ, "TestE/j/n": skipN, "TestE/j-i": vxrt.Bool("skip-TestE/j-i"), "TestE/j#01": vxrt.Bool("skip-TestE/j#01")}
+	reverse := vxrt.Bool("later-tests-first")
+	for k := range tests {
+		tn := tests[k]
+		if reverse {
+			tn = tests[len(tests)-1-k]
+		}
+		// descendants of a skipped test do not start
+		if tn == "TestE/j/n" && skipJ || tn == "TestE/j/n/deep" && (skipJ || skipN) {
+			continue
+		}
+		t := vxNewT(tn)
+		if skip[tn] {
+			SkipNow(t)
+			continue
+		}
+		c.MatchSnapshot(t, "v-"+tn)
+		t.end()
+		vxrt.Assert(len(t.errors) == 0, "setup:passes")
+	}
+	Clean(nil)
+	out := vxrt.Stdout()
+	vxrt.Assert(vxReadFile(path) == content, "C08:entries-of-skipped-tests-and-their-descendants-kept")
+	vxrt.Assert(!strings.Contains(out, vxBullet), "C08:entries-of-skipped-tests-not-listed")
+}
